@@ -1133,7 +1133,7 @@ def c12(tier, replay=None):
     report = Report('C12', tier)
     rng = random.Random(seed() * 4241 + 5)
     space = [(2, 1, 1), (2, 3, 2)] if tier == 'quick' else [(2, 1, 1), (3, 3, 2), (2, 2, 3), (2, 2, 1)]
-    limit = 150 if tier == 'quick' else 2500
+    limit = 180 if tier == 'quick' else 3000
     recs = []
     for maxlen, start, alpha in space:
         cfg = write_cfg('MC_Perturb_%d_%d_%d.cfg' % (maxlen, start, alpha), '''
@@ -1156,10 +1156,16 @@ INVARIANT ExecuteOnlyIfReaches
     # stratify: equal shares per (kind, prediction)
     strata = {}
     for item in recs:
+        # which mutation the perturbation hit: its kind, and whether it re-types the column
+        hit = None
+        for x, y in zip(item[0]['seq'], item[0]['pert']):
+            if x != y:
+                hit = (x.get('k'), x.get('ftype') not in (None, 'None') and x.get('k') == 'Chg')
+                break
         strata.setdefault((item[0]['kind'], item[0]['prediction'],
-                           item[0].get('npending', 1) == 0), []).append(item)
+                           item[0].get('npending', 1) == 0, item[0].get('reason'), hit), []).append(item)
     chosen = []
-    keys = sorted(strata)
+    keys = sorted(strata, key=repr)
     for k in keys:
         rng.shuffle(strata[k])
     while len(chosen) < limit and any(strata[k] for k in keys):
@@ -1206,6 +1212,11 @@ INVARIANT ExecuteOnlyIfReaches
                              'error': obs['error_type'],
                              'predicted_sim_fails': rec['prediction'] == 'sim-fails'}, detail)
         elif executed:
+            # the property names the reasons for which an evolution must be refused before any SQL
+            if rec['prediction'] == 'sim-fails' and rec.get('reason') in (
+                    'missing-model', 'missing-field', 'add-existing', 'non-null-without-initial'):
+                report.fail({'class': 'executed-although-it-must-be-rejected', 'reason': rec['reason'],
+                             'kind': rec['kind']}, detail)
             # it ran SQL: then the pending evolution must have simulated to the models
             if rejected:
                 # the simulation reached the models and execution failed on the
